@@ -85,6 +85,36 @@ type UtxoVM struct {
 	unconfirmTxInMem  *sync.Map                //未确认Tx表的内存镜像
 	unconfirmTxAmount int64                    // 未确认的Tx数目，用于监控
 	bcname            string
+	// outputs created by the transactions of the block(s) being played and not yet written: a block play puts
+	// all transactions of a block into one batch, so until that batch is written such an output exists nowhere
+	// but in UtxoCache, which evicts. nil outside a block play (only touched under the write lock of Mutex)
+	batchOutputs map[string]*UtxoItem
+}
+
+// OpenBatchOutputs starts remembering the outputs that transactions put into a not yet written batch, so that
+// CheckInputEqualOutput finds an output created earlier in the same block whatever UtxoCache has evicted.
+// The caller holds the write lock of Mutex and calls CloseBatchOutputs before releasing it.
+func (uv *UtxoVM) OpenBatchOutputs() {
+	uv.batchOutputs = map[string]*UtxoItem{}
+}
+
+// CloseBatchOutputs forgets the remembered outputs (written by now, or abandoned with their batch)
+func (uv *UtxoVM) CloseBatchOutputs() {
+	uv.batchOutputs = nil
+}
+
+// AddBatchOutput remembers an output a transaction has put into the open batch (no-op outside a block play)
+func (uv *UtxoVM) AddBatchOutput(utxoKeyWithPrefix string, item *UtxoItem) {
+	if uv.batchOutputs != nil {
+		uv.batchOutputs[utxoKeyWithPrefix] = item
+	}
+}
+
+// DelBatchOutput forgets an output that a later transaction of the open batch has spent
+func (uv *UtxoVM) DelBatchOutput(utxoKeyWithPrefix string) {
+	if uv.batchOutputs != nil {
+		delete(uv.batchOutputs, utxoKeyWithPrefix)
+	}
 }
 
 // InboundTx is tx wrapper
@@ -145,6 +175,12 @@ func (uv *UtxoVM) CheckInputEqualOutput(tx *pb.Transaction) error {
 			}
 		}
 		uv.UtxoCache.Unlock()
+		if amountBytes == nil {
+			if uItem := uv.batchOutputs[pb.UTXOTablePrefix+utxoKey]; uItem != nil {
+				amountBytes = uItem.Amount.Bytes()
+				frozenHeight = uItem.FrozenHeight
+			}
+		}
 		if amountBytes == nil {
 			uBinary, findErr := uv.utxoTable.Get([]byte(utxoKey))
 			if findErr != nil {
